@@ -35,6 +35,11 @@ Inductive case :=
 (** One export answered OK / 200 with this partial_success; run with nothing else in flight, [handled] = partial-success
     reports the error handler received during it. *)
 | CPartial (exporter : N) (p : partial_info) (err handled : N)
+(** Shutdown (1 s context) called after the third attempt of an export that is retrying against a collector that never
+    recovers (MaxElapsedTime 8 s): did Shutdown / the export return within the observation, the export's error class,
+    how long after the Shutdown CALL each of them returned, requests later than 3 s after Shutdown returned. *)
+| CShutdownWait (exporter : N) (shutdown_returned export_returned : bool) (err : N)
+                (export_after_call_ns shutdown_after_call_ns : Z) (late : nat)
 | CBurst (exporter : N) (gzip : bool) (attempts : nat) (decoded : list N) (own : list bool) (err handled : N).
 
 Definition flag (b : bool) (code : N) : list N := if b then [] else [code].
@@ -106,6 +111,15 @@ Definition check_case (c : case) : list N :=
                          {| Model.enabled := true; max_elapsed := 0 |} [OSuccess (reports p)] in
       flag ((class_of_result (res o) =? err)%N && (N.of_nat (Types.handled o) =? handled)%N) V_MISMATCH ++
       flag (partial_ok p err handled) V_SPECFAIL
+  | CShutdownWait exporter sret eret err exp_ns shut_ns late =>
+      (* known finding F-C14-2, narrowly: exactly what [shutdown_mode_of] says these exporters do *)
+      let known :=
+        match shutdown_mode_of exporter with
+        | Interrupts => false
+        | WaitsForExport => sret && eret && (err =? 2)%N && Nat.eqb late 0 && (exp_ns - NS_PER_S <=? shut_ns) && (3 * NS_PER_S <? shut_ns)   (* Shutdown came back only (about) when the export had used up its budget *)
+        | Detached => sret && eret && (err =? 2)%N && (shut_ns <=? 3 * NS_PER_S)                     (* Shutdown came back at once, the export went on alone *)
+        end in
+      if shutdown_wait_ok sret eret err exp_ns late then [] else if known then [V_KNOWN 2] else [V_SPECFAIL]
   | CBurst exporter gzip attempts decoded own err handled =>
       let m := model_run true 0 None [RespHttp 503 None false; RespHttp 200 None false] in
       flag (Nat.eqb (Types.attempts m) attempts && (class_of_result (res m) =? err)%N &&
